@@ -13,7 +13,12 @@ git -C $L/wt checkout -q --detach $(git -C /repo rev-parse HEAD) 2>/dev/null
 git -C $L/wt checkout -q -- . ; git -C $L/wt clean -fdq
 if [ "$PATCH" != "-" ]; then git -C $L/wt apply "$PATCH" || { echo "PATCH-FAILED $PATCH"; exit 2; }; fi
 rsync -a --delete --exclude target --exclude gen --exclude target-build.log /verif/sim/ $L/verif/sim/
-[ -d $L/target ] || cp -a /verif/sim/target $L/target
+if [ ! -d $L/target ]; then
+  cp -a /verif/sim/target $L/target
+  # the copied dep-info names /verif/sim/gen/... by absolute path: force one rebuild of the crates
+  # compiled from the generated sources so that this lane tracks its own gen/
+  rm -rf $L/target/release/.fingerprint/nun-db-* $L/target/release/.fingerprint/nunsim-*
+fi
 cp /verif/known_findings.json $L/verif/known_findings.json
 cp /verif/properties.jsonl $L/verif/ 2>/dev/null
 export CARGO_NET_OFFLINE=true CARGO_TARGET_DIR=$L/target NUNDB_REPO_SRC=$L/wt/src NUNSIM_VERIF_DIR=$L/verif
